@@ -45,6 +45,16 @@ def demandAt (I : Inst) (plan : Plan) (w k : Nat) (r : String) (t : Nat) : Nat :
 def load (I : Inst) (plan : Plan) (w k : Nat) (r : String) : Nat :=
   nsum (I.act.map (demandAt I plan w k r))
 
+/-- Demand of task `t` for resource `r` on worker `w` at the *instant* `τ` (µs): the task
+occupies the half-open interval `[slot, slot + runtime)`. -/
+def demandInstant (I : Inst) (plan : Plan) (w : Nat) (τ : Int) (r : String) (t : Nat) : Nat :=
+  match plan.get t with
+  | some c => if c.1 = w ∧ I.slot c.2.1 ≤ τ ∧ τ < I.slot c.2.1 + (I.runtime t c.2.2 : Nat) then I.req t c.2.2 r else 0
+  | none => 0
+
+def loadInstant (I : Inst) (plan : Plan) (w : Nat) (τ : Int) (r : String) : Nat :=
+  nsum (I.act.map (demandInstant I plan w τ r))
+
 /-- Start instant of a placed cell. -/
 def startOf (I : Inst) (c : Cell) : Int := I.slot c.2.1
 
@@ -121,5 +131,29 @@ def maxRew (I : Inst) (t : Nat) : Int :=
 def objBound (I : Inst) : Int :=
   isum ((I.act.filter I.rewarded).map (fun t =>
     if I.running t then (if I.cplex then 2 * (I.den : Int) else I.rew 0) else maxRew I t))
+
+/-! ### Acyclicity of the dependencies among the tasks of the call -/
+
+/-- Longest weighted chain of parents-with-variables ending in `c`, explored to depth `fuel`. -/
+def lp (I : Inst) : Nat → Nat → Nat
+  | 0, _ => 0
+  | f + 1, c => maxL ((I.parentVars c).map (fun p => lp I f p + I.parentDur p + 1))
+
+/-- The depth-`nT` exploration is a fixed point: true exactly when the parent relation among the
+tasks of the call has no cycle (a chain has at most `nT` tasks). -/
+def wfAcyclic (I : Inst) : Bool :=
+  I.act.all (fun c => (I.parentVars c).all (fun p => decide (lp I I.nT p + I.parentDur p + 1 ≤ lp I I.nT c)))
+
+/-- The feasible point that realises a plan (completeness direction). -/
+def sigmaOf (I : Inst) (plan : Plan) : Var → Int
+  | .cell t w k s => if plan.get t = some (w, k, s) then 1 else 0
+  | .placedAt t k => (match plan.get t with | some c => if c.2.1 = k then 1 else 0 | none => 0)
+  | .notPlacedAt t k => (match plan.get t with | some c => if c.2.1 = k then 0 else 1 | none => 1)
+  | .phase t k => (match plan.get t with | some c => if c.2.1 = k ∧ k ≠ 0 then 1 else 0 | none => 0)
+  | .start t => (match plan.get t with | some c => I.slot c.2.1 | none => I.slot I.nSlots + (lp I I.nT t : Nat))
+  | .isPlaced t => if (plan.get t).isSome then 1 else 0
+  | .allParents t =>
+      if (I.parentVars t).all (fun p => (plan.get p).isSome) && (I.parentVars t).length == I.nParents t then 1 else 0
+  | .reward t => (match plan.get t with | some c => I.rew c.2.1 | none => 0)
 
 end ErdosVerif.TetriSpec
